@@ -76,6 +76,12 @@ impl DeweyVersion {
      * Create a new [`DeweyVersion`] from a string.
      */
     pub fn new(s: &str) -> Self {
+        /*
+         * pkg_install compares modifiers, "nb" and letters without regard
+         * to case, so tokenise a lower-cased copy.
+         */
+        let s = s.to_ascii_lowercase();
+        let s = s.as_str();
         let mut version: Vec<i64> = vec![];
         let mut pkgrevision = 0;
         let mut idx = 0;
